@@ -11,6 +11,7 @@ import OdlModel.Lemmas.ResizeSpec
 import OdlModel.Lemmas.ResizeOp
 import OdlModel.Lemmas.ResizeLin
 import Mathlib.Tactic.FieldSimp
+import Mathlib.Tactic.NormNum
 
 set_option linter.unusedVariables false
 set_option linter.unusedTactic false
@@ -348,29 +349,180 @@ theorem C16.range_covers_domain (a : Axis F) (nNew : Nat) (off : Option Int)
     split_ifs <;> push_cast <;> linarith
 end ordered
 
+section offsetFromSpaces
+
+/-- **An accepted pair of partitions is aligned.**  If `_offset_from_spaces` (exact arithmetic)
+returns the array offset `k` for one axis, then `k ≤ |n_ran - n_dom|` and the block that
+`resize_array` copies with this offset sits on coinciding grid points: for an extension, grid
+point `k` of the range is the first grid point of the domain; for a restriction the range starts
+at grid point `k` of the domain; an axis of unchanged length has offset 0.  (Ranges shifted to the
+other side, shifted too far, or by a non-multiple of the cell side are refused — before repo fix
+C16-F5 the absolute value of the shift was taken and such ranges were accepted.) -/
+theorem C16.offset_from_spaces_aligned (dom ran : Axis Rat) (k : Nat) (hc : dom.cell ≠ 0)
+    (h : offsetFromAxes dom ran = .ok k) :
+    (dom.n = ran.n → k = 0) ∧
+    (dom.n < ran.n → k ≤ ran.n - dom.n ∧ ran.gridMin + (k : Rat) * dom.cell = dom.gridMin) ∧
+    (ran.n < dom.n → k ≤ dom.n - ran.n ∧ ran.gridMin = dom.gridMin + (k : Rat) * dom.cell) := by
+  unfold offsetFromAxes at h
+  split_ifs at h with h0 h1 h2
+  · simp only [Except.ok.injEq] at h
+    exact ⟨fun _ => h.symm, fun hh => by omega, fun hh => by omega⟩
+  · simp only [Except.ok.injEq] at h
+    simp only [ne_eq, not_not] at h1
+    have hq : ((shiftCells dom ran).num : Rat) = shiftCells dom ran :=
+      Rat.coe_int_num_of_den_eq_one h1
+    have hk : ((k : Int)) = (shiftCells dom ran).num := by omega
+    have hkq : (k : Rat) = shiftCells dom ran := by
+      rw [← hq, ← hk]; simp
+    refine ⟨fun hh => absurd hh h0, fun hh => ⟨by omega, ?_⟩, fun hh => ⟨by omega, ?_⟩⟩
+    · rw [hkq, shiftCells, if_pos hh]; field_simp; ring
+    · rw [hkq, shiftCells, if_neg (by omega)]; field_simp; ring
+
+
+/-- **`_resize_discr` followed by `_offset_from_spaces` returns the requested offset.**  For
+`offset = None` or `0 ≤ offset ≤ |n_new - n|` the range built from `ran_shp` is accepted and the
+array offset is `|num_l|` (`= offset` when given, see `C16.range_grid_aligned`). -/
+theorem C16.offset_from_spaces_roundtrip (a : Axis Rat) (nNew : Nat) (off : Option Int) (bl' br' : Bool)
+    (hn : 2 ≤ a.n) (hN : 2 ≤ nNew) (hc : a.cell ≠ 0)
+    (hoff : ∀ o, off = some o → 0 ≤ o ∧ o ≤ (((nNew : Int) - a.n).natAbs : Int)) :
+    offsetFromAxes a (resizeAxis a nNew off bl' br') =
+      .ok (numLR a.n nNew off).1.natAbs := by
+  have hg := C16.range_grid_min a nNew off bl' br' hn hN
+  have hnn : (resizeAxis a nNew off bl' br').n = nNew := rfl
+  by_cases h0 : a.n = nNew
+  · simp [offsetFromAxes, hnn, h0, numLR]
+  · -- sign facts about num_l
+    have hs : (if nNew > a.n then (1 : Int) else -1) * (numLR a.n nNew off).1 =
+        ((numLR a.n nNew off).1.natAbs : Int) ∧
+        ((numLR a.n nNew off).1.natAbs : Int) ≤ (((nNew : Int) - a.n).natAbs : Int) := by
+      cases off with
+      | none => simp only [numLR, if_neg h0]; split_ifs <;> omega
+      | some o =>
+        have := hoff o rfl
+        simp only [numLR, if_neg h0]; split_ifs <;> omega
+    have hq : shiftCells a (resizeAxis a nNew off bl' br') =
+        (((numLR a.n nNew off).1.natAbs : Int) : Rat) := by
+      rw [← hs.1]
+      simp only [shiftCells, hnn, hg]
+      split_ifs <;> (push_cast; field_simp; ring)
+    simp only [offsetFromAxes, hnn, if_neg h0, hq, Rat.den_intCast, Rat.num_intCast, ne_eq,
+      not_true_eq_false, ↓reduceIte, Int.toNat_natCast]
+    rw [if_neg (by omega)]
+
+/-- the refusals are live: a range shifted to the RIGHT of the domain (audit example),
+shifted too far to the left, and shifted by half a cell -/
+example : offsetFromAxes ⟨0, 1, 4, false, false⟩ ⟨1/4, 7/4, 6, false, false⟩ =
+    .error .notContained := by
+  have h : shiftCells ⟨0, 1, 4, false, false⟩ ⟨1/4, 7/4, 6, false, false⟩ = ((-1 : Int) : Rat) := by
+    norm_num [shiftCells, Axis.gridMin, Axis.cell]
+  unfold offsetFromAxes; simp only [h]; simp
+example : offsetFromAxes ⟨0, 1, 4, false, false⟩ ⟨-1/8, 11/8, 6, false, false⟩ =
+    .error .notMultiple := by
+  have h : shiftCells ⟨0, 1, 4, false, false⟩ ⟨-1/8, 11/8, 6, false, false⟩ = mkRat 1 2 := by
+    norm_num [shiftCells, Axis.gridMin, Axis.cell]
+  have hd : (mkRat 1 2).den = 2 := by decide
+  unfold offsetFromAxes; simp only [h, hd]; simp
+example : offsetFromAxes ⟨0, 1, 4, false, false⟩ ⟨-1/4, 5/4, 6, false, false⟩ = .ok 1 := by
+  have h : shiftCells ⟨0, 1, 4, false, false⟩ ⟨-1/4, 5/4, 6, false, false⟩ = ((1 : Int) : Rat) := by
+    norm_num [shiftCells, Axis.gridMin, Axis.cell]
+  unfold offsetFromAxes; simp only [h]; simp
+example : offsetFromAxes ⟨0, 1, 4, false, false⟩ ⟨-1, 1/2, 6, false, false⟩ =
+    .error .notContained := by
+  have h : shiftCells ⟨0, 1, 4, false, false⟩ ⟨-1, 1/2, 6, false, false⟩ = ((4 : Int) : Rat) := by
+    norm_num [shiftCells, Axis.gridMin, Axis.cell]
+  unfold offsetFromAxes; simp only [h]; simp
+
+end offsetFromSpaces
+
 section weighted
 variable {F : Type} [Field F] [DecidableEq F]
 
-/-- **Adjoint identity in the weighted inner products.**  Let the range and the domain carry
-arbitrary diagonal weights `wr`, `wd` (`wd` nowhere zero) — in the code: the common cell volume
-times the boundary-cell fractions of `DiscretizedSpace.inner`, which are `1/2` for nodes on the
-boundary.  Then for every mode, all sizes, admissible offsets and contents,
-`ResizingOperator.adjoint` (scale by `wr`, transpose-resize, divide by `wd`) satisfies
-`⟨R x, y⟩_wr = ⟨x, R* y⟩_wd`. -/
-theorem C16.weighted_adjoint (mode : Mode) (n m off : Nat) (x y wr wd : Nat → F)
-    (h : Admissible mode n m off) (hwd : ∀ j < n, wd j ≠ 0) :
+/-- **Adjoint identity in the weighted inner products** (one axis), for the scaling the code
+performs.  `DiscretizedSpace.inner` weights entry `i` by `innerWeight w frac i` = tensor-space
+weighting (a constant — by default the cell volume — or an array) times boundary-cell fraction.
+For every mode, all sizes, admissible offsets and contents, every combination of constant and
+array weightings of range and domain and all boundary fractions (domain weights non-zero),
+`ResizingOperatorAdjoint._call` as coded (`opAdjointW`: fractions of the range, weights or ratio
+of the constants, transpose-resize, fractions and weights of the domain) satisfies
+`⟨R x, y⟩_range = ⟨x, R* y⟩_domain`.  (With the ratio of the two constants left out — the code
+before repo fix C16-F4 — the statement is false whenever the constants differ.) -/
+theorem C16.weighted_adjoint (mode : Mode) (n m off : Nat) (x y : Nat → F)
+    (wR wD : Weighting F) (fR fD : Nat → F) (h : Admissible mode n m off)
+    (hD : ∀ j < n, wD.at j ≠ 0 ∧ fD j ≠ 0) :
     ∃ r ra, resize1d mode .forward n m off 0 x = .ok r ∧
-      opAdjoint1d mode m n off wr wd y = .ok ra ∧
-      ∑ i ∈ range m, wr i * (r i * y i) = ∑ j ∈ range n, wd j * (x j * ra j) := by
-  obtain ⟨r, rt, h1, h2, h3⟩ := C16.adjoint_transpose mode n m off x (fun i => wr i * y i) h
-  refine ⟨r, fun j => rt j / wd j, h1, by simp only [opAdjoint1d, h2], ?_⟩
-  have e1 : ∑ i ∈ range m, wr i * (r i * y i) = ∑ i ∈ range m, wr i * y i * r i :=
-    sum_congr rfl (fun i _ => by ring)
-  have e2 : ∑ j ∈ range n, wd j * (x j * (rt j / wd j)) = ∑ j ∈ range n, x j * rt j :=
-    sum_congr rfl (fun j hj => by
-      have := hwd j (mem_range.1 hj)
-      field_simp)
-  rw [e1, e2, h3]
+      opAdjointW mode m n off wR fR wD fD y = .ok ra ∧
+      ∑ i ∈ range m, innerWeight wR fR i * (r i * y i) =
+        ∑ j ∈ range n, innerWeight wD fD j * (x j * ra j) := by
+  cases wR with
+  | const a =>
+    cases wD with
+    | const b =>
+      obtain ⟨r, rt, h1, h2, h3⟩ := C16.adjoint_transpose mode n m off x (fun i => y i * fR i) h
+      refine ⟨r, fun j => rt j / fD j * (a / b), h1, by simp only [opAdjointW, h2], ?_⟩
+      have e1 : ∑ i ∈ range m, innerWeight (.const a) fR i * (r i * y i) =
+          a * ∑ i ∈ range m, y i * fR i * r i := by
+        rw [mul_sum]; exact sum_congr rfl (fun i _ => by simp only [innerWeight, Weighting.at]; ring)
+      have e2 : ∑ j ∈ range n, innerWeight (.const b) fD j * (x j * (rt j / fD j * (a / b))) =
+          a * ∑ j ∈ range n, x j * rt j := by
+        rw [mul_sum]
+        exact sum_congr rfl (fun j hj => by
+          obtain ⟨hw, hf⟩ := hD j (mem_range.1 hj)
+          simp only [innerWeight, Weighting.at] at hw ⊢
+          field_simp)
+      rw [e1, e2, h3]
+    | array v =>
+      obtain ⟨r, rt, h1, h2, h3⟩ :=
+        C16.adjoint_transpose mode n m off x (fun i => y i * fR i * a) h
+      refine ⟨r, fun j => rt j / fD j / v j, h1, by simp only [opAdjointW, Weighting.at, h2], ?_⟩
+      have e1 : ∑ i ∈ range m, innerWeight (.const a) fR i * (r i * y i) =
+          ∑ i ∈ range m, y i * fR i * a * r i :=
+        sum_congr rfl (fun i _ => by simp only [innerWeight, Weighting.at]; ring)
+      have e2 : ∑ j ∈ range n, innerWeight (.array v) fD j * (x j * (rt j / fD j / v j)) =
+          ∑ j ∈ range n, x j * rt j :=
+        sum_congr rfl (fun j hj => by
+          obtain ⟨hw, hf⟩ := hD j (mem_range.1 hj)
+          simp only [innerWeight, Weighting.at] at hw ⊢
+          field_simp)
+      rw [e1, e2, h3]
+  | array u =>
+    obtain ⟨r, rt, h1, h2, h3⟩ :=
+      C16.adjoint_transpose mode n m off x (fun i => y i * fR i * u i) h
+    refine ⟨r, fun j => rt j / fD j / wD.at j, h1, ?_, ?_⟩
+    · cases wD <;> simp only [opAdjointW, Weighting.at, h2]
+    · have e1 : ∑ i ∈ range m, innerWeight (.array u) fR i * (r i * y i) =
+          ∑ i ∈ range m, y i * fR i * u i * r i :=
+        sum_congr rfl (fun i _ => by simp only [innerWeight, Weighting.at]; ring)
+      have e2 : ∑ j ∈ range n, innerWeight wD fD j * (x j * (rt j / fD j / wD.at j)) =
+          ∑ j ∈ range n, x j * rt j :=
+        sum_congr rfl (fun j hj => by
+          obtain ⟨hw, hf⟩ := hD j (mem_range.1 hj)
+          simp only [innerWeight]
+          field_simp)
+      rw [e1, e2, h3]
+
+
+/-- **Adjoint identity in the weighted inner products, any number of axes**, for arbitrary
+diagonal weights `WR`, `WD` of range and domain (`WD` nowhere zero) — in the code the
+tensor-space weighting times the product over the axes of the boundary-cell fractions (corner
+cells get the factors of every axis, `only_once=False`): `W_D⁻¹ Rᵀ W_R` (`opAdjointND`, in the
+code's axis order) is the adjoint of the forward resize. -/
+theorem C16.weighted_adjoint_nd (mode : Mode) (sIn sOut offs : List Nat)
+    (h : AdmissibleND mode sIn sOut offs) (X Y WR WD : List Nat → F) (hWD : ∀ idx, WD idx ≠ 0) :
+    sumBox sOut (fun idx => WR idx *
+        (resizeAxes mode .forward (0 : F) 0 sIn sOut offs X idx * Y idx)) =
+      sumBox sIn (fun idx => WD idx * (X idx * opAdjointND mode sOut sIn offs WR WD Y idx)) := by
+  have := C16.adjoint_transpose_nd mode sIn sOut offs h X (fun i => WR i * Y i)
+  have e1 : (fun idx => WR idx * (resizeAxes mode .forward (0 : F) 0 sIn sOut offs X idx * Y idx)) =
+      (fun idx => WR idx * Y idx * resizeAxes mode .forward (0 : F) 0 sIn sOut offs X idx) := by
+    funext idx; ring
+  have e2 : (fun idx => WD idx * (X idx * opAdjointND mode sOut sIn offs WR WD Y idx)) =
+      (fun idx => X idx * resizeAxes mode .adjoint (0 : F) 0 sOut sIn offs
+        (fun i => WR i * Y i) idx) := by
+    funext idx
+    have := hWD idx
+    simp only [opAdjointND]
+    field_simp
+  rw [e1, e2, this]
 
 end weighted
 
